@@ -73,6 +73,27 @@ def main():
             p, err = do_parse(op[1])
             last = (op[1], p)
             out["steps"].append(["parse", op[1], full_sig(p, err)])
+        elif op[0] == "abort":
+            # a parse+schedule call that dies in the middle of scheduling (injected MemoryError at the k-th task
+            # placement): "earlier calls incl. failing ones" - whatever state it leaves behind must not leak
+            from scriptplan.core.task_scenario import TaskScenario
+
+            orig = TaskScenario.schedule
+            cnt = {"n": 0}
+
+            def boom(self):
+                cnt["n"] += 1
+                if cnt["n"] == 2:
+                    raise MemoryError("injected by the C12 harness")
+                return orig(self)
+
+            TaskScenario.schedule = boom
+            try:
+                p, err = do_parse(op[1])
+            finally:
+                TaskScenario.schedule = orig
+            last = None
+            out["steps"].append(["abort", op[1], "aborted" if err else "completed"])
         elif op[0] == "resched":
             if last and last[1] is not None:
                 with contextlib.redirect_stdout(buf), contextlib.redirect_stderr(buf):
